@@ -15,7 +15,7 @@ from driver import run_batch
 from wire import to_wire, from_wire, canon, exc_class
 from props.common import scale, depth_of, schema_tags, load_corpus
 
-THEOREMS = ["c15_encode_eq_spec", "c15_decode_encode", "c15_bytes_strings"]
+THEOREMS = ["c15_encode_eq_spec", "c15_core_is_spec", "c15_bytes_strings"]
 TARGETS = ["Properties.C15"]
 
 
